@@ -32,7 +32,7 @@ ASSUMPTIONS = [
                'and at most the requested number; it does not require a particular s']
 EXPECTED_PROBES = {'C17': ['spike_on_bound', 'stride_not_dividing', 'unknown_cluster',
                            'subsampled_cluster', 'exactly_n_eligible', 'empty_request',
-                           'subset_and_chunks', 'kept_more_than_chunks', 'float_chunk_grid', 'subset_with_repeated_id',
+                           'subset_and_chunks', 'kept_more_than_chunks', 'float_chunk_grid', 'subset_with_repeated_id', 'spike_before_first_bound',
                            'cluster_requested_twice']}
 
 
@@ -40,7 +40,7 @@ def gen(rng, prop, tier):
     big = tier == 'thorough'
     m = rng.randint(2, 12 if not big else 24)  # number of bounds
     step_choices = [1, 2, 3, 5, 10]
-    bounds = [0]
+    bounds = [rng.choice([0, 0, 0, 3, 7])]     # a grid need not start at time 0
     for _ in range(m - 1):
         bounds.append(bounds[-1] + rng.choice(step_choices))
     T = bounds[-1]
@@ -190,6 +190,8 @@ def execute(plan, ctx):
             on_bound = any(t in bounds for t in tvals)
             if on_bound:
                 ctx.probe('spike_on_bound')
+            if any(t < bounds[0] for t in tvals):
+                ctx.probe('spike_before_first_bound')
 
             def in_kept(t):
                 return any(lo <= t < hi for lo, hi in pairs)
